@@ -49,6 +49,10 @@ def plan(tier):
         # quick: every fourth rendering plus the ones that permute items / use -- (a different third per seed)
         seed = int(os.environ.get('VERIF_SEED', '0') or 0)
         rs = [r for i, r in enumerate(rs) if i % 4 == seed % 4 or '--' in r]
+        # measured on a fresh machine (vp check, VERIF_SEED=1): a fully symbolic FIRST token followed by another symbolic token ('** --o=**': no
+        # verdict in 860 s) and three symbolic tokens ('--m=** ?* -q=**': 618 s) do not fit a 900 s quick run; they stay in the thorough tier
+        sym = lambda t: '*' in t or '?' in t
+        rs = [r for r in rs if not (sym(r[0]) and not r[0].startswith('-') and len(r) > 1 and any(sym(t) for t in r[1:]) and r[0] != '--') and sum(1 for t in r if sym(t)) < 3]
     for r in rs:
         wit = [W_OK]
         qs.append(Q(P, 1, r, wit=wit, k=4, est_gb=4))
